@@ -413,7 +413,7 @@ PROPS["C08"]["rule"] += (" ; flood engine, one small case of the kinds tokens / 
                          "(response-ip-not-requester-compact-address:flood-peers), every query answered, accepted writes acknowledged")
 
 # maint engine, pass cases (harness/cmd/h/maint_pass.go; model coq/model/Maint.v + RunMaint.v, lemmas coq/proofs/MaintProofs.v): the table maintainer's
-# control flow is inside the model; a C06 / C14 run executes only the pass cases of the engine (VERIF_PROP)
+# control flow is inside the model; a C05 / C06 / C14 run executes only the pass cases of the engine (VERIF_PROP)
 _MAINT_PASS = (" ; maint engine, pass cases (model-compared line mpass): ONE pass of the real Server.TableMaintainer over a table prepared through AddNode / answered "
                "Ping / 20 virtual minutes / the failed-ping hook (good, questionable never heard from, questionable with a history, bad; buckets 0..d-1 full, bucket d "
                "with a free slot / a silent questionable entry / a bad entry / a mix, further entries deeper), on a network answering ping for a chosen set of contacts "
@@ -424,4 +424,6 @@ PROPS["C06"]["engines"] = PROPS["C06"]["engines"] + ["maint"]
 PROPS["C06"]["rule"] += _MAINT_PASS + " (oracles good-entry-pinged-as-questionable, good-entry-marked-bad-by-table-maintenance, good-entry-dropped-by-table-maintenance)"
 PROPS["C14"]["engines"] = PROPS["C14"]["engines"] + ["maint"]
 PROPS["C14"]["rule"] += _MAINT_PASS + " (oracles maintainer-pass-does-not-end, maintainer-bootstrap-query-after-the-pass-began)"
+PROPS["C05"]["engines"] = PROPS["C05"]["engines"] + ["maint"]
+PROPS["C05"]["rule"] += _MAINT_PASS + " (oracles entry-moved-or-removed-by-table-maintenance, entry-added-by-table-maintenance-on-a-network-listing-no-nodes, node-count-disagrees-with-table:after-maintenance)"
 PROPS["C01"]["rule"] += _MAINT_PASS
